@@ -26,8 +26,8 @@ func init() {
 		},
 		Plan: func(tier string, seed int64) *harness.Plan {
 			sys := newSysCases(tier)
-			nRand := size(tier, 200000, 3000000)
-			nStr := size(tier, 100000, 1500000)
+			nRand := size(tier, 200000, 12000000)
+			nStr := size(tier, 100000, 5000000)
 			var src *strSource
 			return &harness.Plan{
 				N: sys.n() + nRand + nStr,
